@@ -378,3 +378,17 @@ fn c18_cedt_too_many_xor_maps_refused() {
         panic!("CXIMS with 256 bitmaps returned: bitmap count field {}, record length {}", b[7], le16_at(&b, 2));
     }
 }
+
+// ---- MADT
+#[test]
+fn c11_madt_gic_msi_spi_select_flag_gates_the_values() {
+    use acpi_tables::madt::*;
+    // ACPI 6.5 table 5.47: flags bit 0 "SPI Count/Base Select": 1 = the SPI Count and Base fields of
+    // this structure are to be used, 0 = they are ignored (hardware MSI_TYPER is used)
+    let unset = ser(&GicMsi::new());
+    assert_eq!(le32_at(&unset, 16) & 1, 0, "no SPI values supplied -> select flag must be clear");
+    let set = ser(&GicMsi::new().spi_count_and_base(8, 64));
+    assert_eq!(le16_at(&set, 20), 8);
+    assert_eq!(le16_at(&set, 22), 64);
+    assert_eq!(le32_at(&set, 16) & 1, 1, "SPI values supplied -> select flag must be set");
+}
